@@ -110,3 +110,32 @@ func CheckConcurrentStreams(o Obs, r *core.Rand, k, n int) {
 		o.Violate(SigConcurrent, "%d streams received at once in one process: %s", k, b)
 	}
 }
+
+// A message whose encoding does not fit the 32-bit length prefix: SendMsg has
+// to refuse it. The message only claims its size (nothing of that size is
+// built here); a sender that does not check would announce the size modulo
+// 2^32 and write the whole body, which the reader takes for further frames.
+
+const SigOversized = "oversized-message-sent"
+
+type claimedSize struct{ n int }
+
+func (c claimedSize) Size() int                       { return c.n }
+func (c claimedSize) MarshalTo(b []byte) (int, error) { return len(b), nil }
+
+type countingWriter struct{ n int64 }
+
+func (w *countingWriter) Write(b []byte) (int, error) { w.n += int64(len(b)); return len(b), nil }
+
+func CheckOversizedSend(o Obs) {
+	w := &countingWriter{}
+	s := util.NewProtoStream(context.Background(), io.LimitReader(nil, 0), w)
+	for _, n := range []int{1<<32 + 10, 1 << 32, 1<<33 + 1} {
+		before := w.n
+		err := s.SendMsg(claimedSize{n})
+		o.Count("oversized_messages_offered", 1)
+		if err == nil {
+			o.Violate(SigOversized, "SendMsg accepted a message of %d bytes (more than the 32-bit length prefix can announce) and wrote %d bytes", n, w.n-before)
+		}
+	}
+}
